@@ -250,9 +250,17 @@ impl Tour {
                 .iter()
                 .map(|n| self.network.node(*n).travel_distance())
                 .sum();
-        let new_dead_head_distance = self.dead_head_distance
-            - self.dead_head_distance_of_segment(start_pos, end_pos)
-            + self.dead_head_distance_of_new_nodes(&new_nodes, start_pos, end_pos);
+        let new_dead_head_distance = if self.dead_head_distance == Distance::Infinity {
+            // Infinity absorbs every subtraction; if the path replaces the overflow depot the
+            // distance becomes finite again, so recompute it from the new node sequence
+            let mut nodes_after_insertion = self.nodes[..start_pos].to_vec();
+            nodes_after_insertion.extend(new_nodes.iter().copied());
+            nodes_after_insertion.extend(self.nodes[end_pos..].iter().copied());
+            Tour::compute_dead_head_distance_of_nodes(&nodes_after_insertion, &self.network)
+        } else {
+            self.dead_head_distance - self.dead_head_distance_of_segment(start_pos, end_pos)
+                + self.dead_head_distance_of_new_nodes(&new_nodes, start_pos, end_pos)
+        };
 
         let new_costs = self.costs - self.costs_of_segment(start_pos, end_pos)
             + self.costs_of_new_nodes(&new_nodes, start_pos, end_pos);
